@@ -179,6 +179,14 @@ func c11Recv(a []string) string {
 			peerDone <- nil
 		}()
 		t := newNBT()
+		// history: in half of the cases (fixed by the arguments) the same transport object has already carried another
+		// session, whose peer sent two frames back to back of which only the first was received before the close.
+		// What this connection delivers is a function of the bytes of this connection alone.
+		if c13Used(a) {
+			if err := c11EarlierSession(t); err != nil {
+				return "", err
+			}
+		}
 		if err := t.Connect(loopback, port); err != nil {
 			return "", err
 		}
@@ -201,6 +209,49 @@ func c11Recv(a []string) string {
 		}
 		return "ok " + msgsTok(msgs), nil
 	})
+}
+
+// c11EarlierSession runs one complete earlier session on t: connect, the peer writes two frames in one write, one
+// Receive, Close.  An infrastructure failure is returned as an error (the case is retried); what the transport
+// answers in that session is judged by the dedicated cases, not here.
+func c11EarlierSession(t transport.Transport) error {
+	ln, err := newLoopbackListener()
+	if err != nil {
+		return err
+	}
+	defer ln.Close()
+	wrote := make(chan error, 1)
+	closed := make(chan struct{})
+	go func() {
+		conn, err := ln.Accept()
+		if err != nil {
+			wrote <- err
+			return
+		}
+		defer conn.Close()
+		conn.SetWriteDeadline(time.Now().Add(c11Wait))
+		_, err = conn.Write(append(rfcFrame([]byte("earlier-1")), rfcFrame([]byte("earlier-2"))...))
+		wrote <- err
+		<-closed
+	}()
+	defer close(closed)
+	if err := t.Connect(loopback, ln.Addr().(*net.TCPAddr).Port); err != nil {
+		return err
+	}
+	select {
+	case err := <-wrote:
+		if err != nil {
+			t.Close()
+			return err
+		}
+	case <-time.After(c11Wait):
+		t.Close()
+		return fmt.Errorf("earlier peer did not write")
+	}
+	time.Sleep(200 * time.Microsecond)
+	t.Receive()
+	t.Close()
+	return nil
 }
 
 func c11Send(a []string) string {
@@ -323,6 +374,14 @@ func c11E2E(a []string) string {
 			}
 		}()
 		ta, tb := newNBT(), newNBT()
+		if c13Used(a) { // both ends have carried an earlier session (see c11EarlierSession)
+			if err := c11EarlierSession(ta); err != nil {
+				return "", err
+			}
+			if err := c11EarlierSession(tb); err != nil {
+				return "", err
+			}
+		}
 		if err := ta.Connect(loopback, portA); err != nil {
 			return "", err
 		}
